@@ -1,2 +1,4 @@
 import MpdSpec.Names
 import MpdSpec.Tokenizer
+import MpdSpec.Records
+import MpdSpec.Views
